@@ -143,6 +143,9 @@ ENV = [
     cb('FooOkCb', 'void', [('int', 'a'), ('gpointer', 'user_data')]),
     cb('FooSkipCb', 'void', [('int', 'a')]),
     cb('FooVaCb', 'void', [('int', 'a')], varargs=True),
+    # local callbacks that merely share the SHORT name of the two exempted GLib/Gio callback types
+    cb('FooDestroyNotify', 'void', [('gpointer', 'data')]),
+    cb('FooAsyncReadyCallback', 'void', [('FooObj*', 'source'), ('gpointer', 'res'), ('gpointer', 'user_data')]),
 ]
 ENV_COMMENTS = [blk('FooSkip', ident='(skip)'), blk('FooForeign', ident='(foreign)'), blk('FooSkipCb', ident='(skip)')]
 
@@ -165,7 +168,8 @@ def dump_xml(props=(), signals=()):
 # ------------------------------------------------------------------- Part A --
 ATOMS_QUICK = ['int', 'FooObj*', 'FooSkip*', 'FooForeign*', 'FooUnknown*', 'va_list', 'long long',
                'unsigned long long', 'long double', 'FooOkCb', 'FooSkipCb', 'FooVaCb', 'GList*', 'GPtrArray*',
-               'GHashTable*', 'char**', 'GObject*', 'GDestroyNotify', 'GAsyncReadyCallback', 'gpointer', 'GCallback']
+               'GHashTable*', 'char**', 'GObject*', 'GDestroyNotify', 'GAsyncReadyCallback', 'gpointer', 'GCallback',
+               'FooDestroyNotify', 'FooAsyncReadyCallback']
 ATOMS_MORE = ['FooUnknown', 'FooSkip', 'FooObj', 'GSList*', 'GArray*', 'GByteArray*', 'GError**', 'GClosure*', 'GValue*',
               'int*', 'const char*', 'FooObj**', 'FooUnknown**', 'long long*', 'va_list*', 'GList**', 'FooOkCb*',
               'GVariant*', 'GQuark', 'FooE']
